@@ -1,6 +1,6 @@
 (* C01 — correspondence helpers for the loop models *)
 From Coq Require Import List ZArith Bool.
-From S2T Require Import C01.Loops.
+From S2T Require Import C01.Loops C01.LoopsXls.
 Import ListNotations.
 Open Scope Z_scope.
 
@@ -33,3 +33,17 @@ Definition ooxml_jpeg_case (c : list Z * (Z * Z)) : bool :=
   | Some NotFound => (w' =? 0) && (h' =? 0)
   | None => false
   end.
+
+(* xls BLIP walk: case = (Workbook stream, the image-data slices the implementation handed to the sniffer) *)
+Fixpoint zl_eqb (a b : list Z) : bool :=
+  match a, b with [], [] => true | x :: a', y :: b' => (x =? y) && zl_eqb a' b' | _, _ => false end.
+Fixpoint zll_eqb (a b : list (list Z)) : bool :=
+  match a, b with [], [] => true | x :: a', y :: b' => zl_eqb x y && zll_eqb a' b' | _, _ => false end.
+Definition slice (d : list Z) (s e : Z) : list Z := firstn (Z.to_nat (e - s)) (skipn (Z.to_nat s) d).
+Definition xls_blip_case (c : list Z * list (list Z)) : bool :=
+  let '(d, want) := c in
+  if len d <? 25 then match want with [] => true | _ => false end
+  else match xls_blips (fuel_for d 0) d 0 with
+       | Some bs => zll_eqb (map (fun b => let '(_, _, s, e) := b in slice d s e) bs) want
+       | None => false
+       end.
